@@ -1,0 +1,15 @@
+//go:build verif
+
+package keeper
+
+// VerifFailHook, when set by a test harness, is consulted at the fault-injection points of this
+// package; a non-nil return makes the surrounding block-processing item fail at that point.
+// Only compiled with the `verif` build tag.
+var VerifFailHook func(site string) error
+
+func verifFail(site string) error {
+	if VerifFailHook == nil {
+		return nil
+	}
+	return VerifFailHook(site)
+}
